@@ -46,9 +46,9 @@ function bodies of the translated program.
   when `set(**kw)` is reached are outside (stuck at that call);
 * column attributes: `column.name`, `column.dbName`, `column.creationOrder`, `column.default`
   (`NoDefault` or a value), `column.defaultSQL` (`None` or an opaque value), `column.foreignName`:
-  `None` for a plain column, for a ForeignKey column (`Fail.Col.fk`) a name that is NOT a column name —
-  `<that name> in kw` is `False` when all keys of `kw` are column names and outside (stuck) otherwise
-  (ForeignKey-by-object keywords are `Fail.Extra`s: not covered).
+  `None` for a plain column, for a ForeignKey column (`Fail.Col.fk`) number `c` a name that is NOT a column name —
+  `<that name> in kw` holds iff some key `k` of `kw` is not a column name and names the by-object setter of
+  column `c` (`w.props k = .fk c _`: `fkKeyFor`, `fkIn`); in particular it is `False` when all keys are column names.
 -/
 namespace SqlObjVerif.PyCreate
 open SqlObjVerif.PyMain (PV R mapR ofOpt PDict dget dhas dset sortByKey ofVal toVal? pvIdx pyBool optMap)
@@ -265,11 +265,23 @@ def valIsNoDefault : Val → Bool
   | .noDefault => true
   | _ => false
 
+/-- the attribute is the by-object setter of the ForeignKey column `c` -/
+def fkTo : Fail.Extra → Nat → Bool
+  | .fk c' _, c => c' == c
+  | _, _ => false
+
+/-- the keyword `k` is the `foreignName` of the ForeignKey column `c`: not a column name, and the attribute it names is
+    the by-object setter of column `c` (`Fail.Extra.fk c _`) -/
+def fkKeyFor (w : FW) (c k : Nat) : Bool := !Nat.blt k w.ncols && fkTo (w.props k) c
+
+/-- `<foreignName of column c> in kw` -/
+def fkIn (w : FW) (c : Nat) (l : PDict) : Bool := l.any fun e => fkKeyFor w c e.1
+
 /-- `k in d` for a keyword dict -/
 def keyIn (w : FW) (D : Dict) : Val → R Bool
   | .pv (.name c) => .ok (dhas c D.cols)
   | .pv .none => .ok false
-  | .fname _ => if D.cols.all (fun e => Nat.blt e.1 w.ncols) then .ok false else .stuck
+  | .fname c => .ok (fkIn w c D.cols)
   | _ => .stuck
 
 def Cond.eval (ctx : Ctx) (st : St) : Cond → R Bool
